@@ -27,6 +27,7 @@ static void a_run_case(void *ctx, mx_result_t *r)
     static unsigned char store[24][24000];
     unsigned char th[64], vd[64], rec[24100], empty[4];
     int no = 0, i, legal, complete, recompute = d->kind != D_NOFINRECOMP;
+    int bad_at = -1, bad_alive = 0;   /* index in out[] of a message that is illegal where it stands; did the victim survive it? */
     buf_t tr;
     int v = g->victim;
 
@@ -39,11 +40,13 @@ static void a_run_case(void *ctx, mx_result_t *r)
             empty[0] = (unsigned char) d->t; empty[1] = empty[2] = empty[3] = 0;
             memcpy(store[no], empty, 4);
             out[no].type = d->t; out[no].p = store[no]; out[no].len = 4;
+            bad_at = no;
             no++;
         }
         if (d->kind == D_APPDATA && d->i == i)
         {
             out[no].type = -23; out[no].p = (const unsigned char *) "EVIL-UNDER-HS-KEYS"; out[no].len = 18;
+            bad_at = no;
             no++;
         }
         if (i == g->nm)
@@ -89,6 +92,7 @@ static void a_run_case(void *ctx, mx_result_t *r)
         }
         if (d->kind == D_DUP && d->i == i)
         {
+            bad_at = no;
             out[no++] = g->m[i];
         }
     }
@@ -133,7 +137,14 @@ static void a_run_case(void *ctx, mx_result_t *r)
         {
             break; /* the victim already aborted */
         }
-        world_feed(&g->w, v, rec, rl);
+        {
+            int was_complete = world_is_complete(&g->w, v);
+            world_feed(&g->w, v, rec, rl);
+            if (i == bad_at && !was_complete)
+            {
+                bad_alive = g->w.s[v].err_rc >= 0 && g->w.s[v].ssl->err == SSL_ALERT_NONE;
+            }
+        }
     }
     world_pump(&g->w, 50);
     complete = world_is_complete(&g->w, v);
@@ -177,6 +188,16 @@ static void a_run_case(void *ctx, mx_result_t *r)
         snprintf(r->key, sizeof(r->key), "%s|victim=%s|legal-sequence-refused", ac->name, v ? "server" : "client");
         snprintf(r->what, sizeof(r->what), "%s %s refused the re-sealed but otherwise untouched honest flight (alert %d): toolkit or library mismatch", ac->name,
             v ? "server" : "client", g->w.s[v].ssl->err);
+    }
+    else if (bad_alive)
+    {
+        /* an empty message of any type, a repeated message, application data under the handshake keys: none of them is
+           the message expected next (no TLS 1.3 handshake message of these modes has an empty body), so the victim must
+           answer with a fatal alert where it arrives - also when the handshake fails later for another reason */
+        r->violation = 1;
+        snprintf(r->key, sizeof(r->key), "%s|victim=%s|%s|illegal-message-not-fatal", ac->name, v ? "server" : "client", dname[d->kind]);
+        snprintf(r->what, sizeof(r->what), "%s %s went on after %s at position %d (type %d): no fatal alert, no error where the illegal message arrived", ac->name, v ? "server" : "client",
+            dname[d->kind], d->i, d->t);
     }
     else if (g->w.s[v].n_deliveries > 0 && !complete)
     {
